@@ -320,6 +320,23 @@ def body(chk, db, cfgname):
             r3.ok(site, f.loc(sj), "for every i < Nprocs: sent to worker_pool[i] only if !workers_finish[i], and the flag is set on the same path", cfgname)
         else:
             r3.bad(site, f.loc(sj), "Finish is not sent exactly once to every worker of the pool (flag test / flag update / full loop over the pool missing): a second Finish overlaps the next dispatch round, or a worker never receives it", cfgname)
+    # liveness side of the same decision: the Finish decision is taken on EVERY call of check_workers (the caller spins on it);
+    # a return before it -- "nothing changed since the last call" -- means that a round with no job (nothing ever changes) or a
+    # round whose last completion was seen in an earlier call never sends Finish
+    site = M + "check_workers:finish-decided-every-call"
+    from checks.lehmann import early_exits_before
+    ee = early_exits_before(f, sends[0])
+    if ee:
+        fa_ = at.get(f.cfg.pos1(ee[0]), frozenset())
+        from checks.c20 import fact_str as _fs
+        about_done = any(key_contains(("x",) + tuple(y for y in x[1:] if isinstance(y, tuple)), lambda y: y == fld(M + "workers_finish") or (y[0] == "mcall" and y[1].endswith("::is_finished"))) for x in fa_)
+        if about_done:
+            r3.unknown(site, f.loc(ee[0]), "check_workers returns early under a condition on the Finish flags themselves (%s): whether nothing is left to send then is not analysed" % "; ".join(sorted(str(_fs(x))[:60] for x in fa_)), cfgname)
+        else:
+            r3.bad(site, f.loc(ee[0]), "check_workers can return before the `no job left and all workers idle` decision (when {%s}): in a round without jobs, or when the deciding state was reached in an earlier call, Finish is never sent and no rank leaves the dispatch loop" % (
+                "; ".join(sorted(str(_fs(x))[:60] for x in fa_)) or "a condition holds"), cfgname)
+    else:
+        r3.ok(site, f.loc(sends[0]), "every call reaches the Finish decision", cfgname)
     site = M + "check_workers:requeue"
     good = False
     for j, n in f.walk(f.body):
